@@ -9,7 +9,7 @@ import sys
 
 sys.path.insert(0, os.path.dirname(os.path.abspath(__file__)))
 import runner                                                     # noqa: E402
-from hist import (Edit, c_add, c_branch, c_branch_list, c_cat_file, c_commit, c_config, c_init, c_log,   # noqa: E402
+from hist import (Edit, c_add, c_branch, c_branch_list, c_branch_delete, c_branch_rename, c_cat_file, c_commit, c_config, c_init, c_log,   # noqa: E402
                   c_ls_files, c_reflog, c_reset, c_restore, c_rm, c_status, c_switch, c_switch_create,
                   c_write_tree, c_hash_object, c_rev_parse)
 
@@ -134,9 +134,75 @@ def newline_names():
                  c_add([b".goit/a\nb"]), c_add([b"x\ny.log"]), c_ls_files(False)]
 
 
+def ignored_same_basename():
+    return ID + [W(b"README", b"r"), W(b"src/main.go", b"m"), c_add([b"."]), c_commit(b"c"), W(b".goitignore", b"build/\n*.log\n"),
+                 W(b"src/build/README", b"generated"), W(b"src/build/main.go", b"gen"), W(b"src/new.go", b"n"),
+                 W(b"deep/er/build/README", b"g2"), W(b"x/README.log", b"l"), c_status(), c_add([b"."]), c_ls_files(False), c_status()]
+
+
+def percent_paths():
+    return ID + [W(b"50%off.txt", b"1"), W(b"keep%s.txt", b"2"), W(b"gone%d.txt", b"3"), W(b"d%v/x%%y", b"4"), c_add([b"."]),
+                 c_status(), c_commit(b"c"), W(b"50%off.txt", b"1b"), c_add([b"50%off.txt"]), c_rm([b"gone%d.txt"]),
+                 W(b"new%q", b"n"), c_add([b"new%q"]), W(b"keep%s.txt", b"unstaged"), W(b"un%stracked", b"u"), c_status(),
+                 c_commit(b"d"), c_status(), c_commit(b"nothing"), c_ls_files(True)]
+
+
+def dot_branches():
+    return ID + [W(b"f", b"1"), c_add([b"f"]), c_commit(b"c1"), c_branch(b".wip"), c_branch(b"-x"), c_branch_list(),
+                 c_branch(b".wip"), W(b"f", b"2"), c_add([b"f"]), c_commit(b"c2"), c_switch_create(b".wip"), c_switch(b".wip"),
+                 c_rev_parse([b".wip", b"main"]), c_branch_list(), c_switch(b"main"), c_branch_delete(b".wip"), c_branch_list(),
+                 c_switch(b"-x"), c_branch_rename(b".hidden"), c_branch_list(), c_rev_parse([b".hidden"])]
+
+
+def long_lines():
+    # (the model's commit parser is quadratic in the message size: a few KiB is what the property asks for)
+    return ID + [W(b"f", b"1"), c_add([b"f"]), c_commit(b"subject\n\n" + b"a" * 4096 + b"\ntail"), c_log(1), W(b"f", b"2"),
+                 c_add([b"f"]), c_commit(b"d" * 4097 + b"\n" + b"e" * 5000), c_log(1), c_reflog()]
+
+
+def deep_directories():
+    return ID + [W(b"a/b/c/f", b"1"), W(b"a/b/c/g", b"2"), W(b"a/b/h", b"3"), W(b"a/b/c/d/e/k", b"4"), W(b"a/top", b"5"), c_add([b"."]),
+                 c_commit(b"c"), c_rm([b"a/b/c/g"]), c_restore([b"a/b/c"], staged=True), c_ls_files(True), W(b"a/b/c/f", b"1x"),
+                 c_add([b"a/b/c"]), c_restore([b"a/b/c/d"], staged=True), c_restore([b"a/b/c"], staged=True), c_ls_files(True),
+                 c_restore([b"a/b/c"]), c_status(), c_rm([b"a/b/c/d/e"]), c_ls_files(False), c_restore([b"a/b/c/d/e"], staged=True),
+                 c_restore([b"a/b"]), c_status(), c_rm([b"a/b/c"]), c_restore([b"a"], staged=True), c_restore([b"a"]), c_status()]
+
+
+def dir_became_file():
+    return ID + [W(b"d/f", b"1"), W(b"d/g/h", b"2"), W(b"keep.txt", b"k"), W(b"other.txt", b"o"), c_add([b"."]), c_commit(b"c"),
+                 c_rm([b"d"]), Edit("rmtree", b"d"), W(b"d", b"now a file"), c_add([b"d"]), c_ls_files(True),
+                 c_restore([b"d"], staged=True), c_ls_files(True), c_status(), c_commit(b"after"), c_ls_files(True), c_write_tree(),
+                 c_reset("hard", b"HEAD@{0}"), c_status()]
+
+
+def reset_after_rename():
+    st = ID + [W(b"f", b"1"), c_add([b"f"]), c_commit(b"c1"), W(b"f", b"2"), c_add([b"f"]), c_commit(b"c2"),
+               c_branch_rename(b"trunk"), c_reflog()]
+    for n in range(0, 6):
+        st += [c_reset("soft", b"HEAD@{%d}" % n), c_reflog()]
+    st += [c_reset("hard", b"HEAD@{2}"), c_reset("mixed", b"HEAD@{3}"), c_branch_rename(b"main"), c_reset("soft", b"HEAD@{1}"),
+           c_reset("soft", b"HEAD@{2}"), c_reflog(), c_log(5), c_status()]
+    return st
+
+
+def colon_branches():
+    return ID + [W(b"f", b"1"), c_add([b"f"]), c_commit(b"c1"), c_branch(b"wip"), c_branch(b"wip: x"), c_switch(b"wip"),
+                 W(b"f", b"2"), c_add([b"f"]), c_commit(b"c2 only on wip"), c_switch(b"wip: x"), c_log(10), c_status(), c_branch_list(),
+                 c_rev_parse([b"wip: x", b"wip"]), W(b"f", b"3"), c_add([b"f"]), c_commit(b"c3 on wip: x"), c_log(10), c_reflog(),
+                 c_switch(b"wip"), c_log(10), c_branch_delete(b"wip: x"), c_branch_list()]
+
+
 ORACLE_ONLY = {"newline-names"}
 
 DIRECTED = [
+    (("C18", "C08", "C03", "C11"), "reset-after-rename", reset_after_rename, "every reflog position after branch --rename (which journals a record without a commit id), in every mode"),
+    (("C14", "C10", "C03"), "colon-branches", colon_branches, "a branch whose name contains ': ' beside a branch named by the part before it"),
+    (("C06", "C09"), "deep-directories", deep_directories, "directory arguments with two and more slashes for restore --staged, restore, rm, add"),
+    (("C03", "C09", "C18"), "dir-became-file", dir_became_file, "a tracked directory removed and replaced by a file of the same name, staged, then restore --staged of that name"),
+    (("C17", "C13"), "ignored-same-basename", ignored_same_basename, "an untracked file inside an ignored directory below the root whose base name equals a tracked top-level file"),
+    (("C07", "C13", "C04"), "percent-paths", percent_paths, "path names containing % in every class of the status report"),
+    (("C10", "C18"), "dot-branches", dot_branches, "branch names starting with '.' or '-': listed, not created twice, switched to, renamed, deleted"),
+    (("C12", "C14"), "long-lines", long_lines, "message lines of 3000, 4096, 4097 and 5000 bytes read back by log"),
     (("C17",), "newline-names", newline_names, "F46: names with a line break inside .goit, under an ignored directory and with an ignored extension (the model's work tree does not hold files inside .goit: oracle only)"),
     (("C01", "C03"), "fanout", many_objects, "more than forty objects: several share the first two hex digits of their id (fan-out directory); every one must be stored and retrievable"),
     (("C02", "C05"), "dir-file-dir", dir_file_dir, "a level whose sorted entries go directory, file, directory, and siblings lib / lib.go / lib-old"),
